@@ -900,6 +900,42 @@ theorem gen_vector_layout :
     Generated.C20.pathUnmarshalCalls = ["hasPathVector.Unmarshal", "len", "fmt.Errorf", "endian.Uint32",
       "endian.Uint32", "len", "uint32", "len", "fmt.Errorf", "encoding.BytesToU32Slice"] := ⟨rfl, rfl, rfl, rfl⟩
 
+/-- the remaining readers, statement for statement what `labelsR` / `valuesR` / `bitsR` / `selR` follow:
+`labelVector.Unmarshal` has ONE length check (`len(buf) < 4`) and slices `buf[4:4+size]` unchecked,
+`valueVector.Unmarshal` has none, `bitVector.unmarshal` checks the word bytes, `selectVector.Unmarshal`
+the header and the table -/
+theorem gen_unmarshal_checks :
+    Generated.C20.labelUnmarshalCalls = ["len", "len", "fmt.Errorf", "endian.Uint32"] ∧
+    Generated.C20.valueUnmarshalCalls = ["encoding.BytesToU32Slice"] ∧
+    Generated.C20.bitUnmarshalCalls = ["endian.Uint32", "v.numWords", "v.bitsSize", "int", "len", "len", "fmt.Errorf",
+      "encoding.BytesToU64Slice"] ∧
+    Generated.C20.selectUnmarshalCalls = ["len", "fmt.Errorf", "v.unmarshal", "endian.Uint32", "v.lutSize", "int",
+      "len", "len", "fmt.Errorf", "encoding.BytesToU32Slice"] := ⟨rfl, rfl, rfl, rfl⟩
+
+/-- **every field of a `trie` object and of each of its vectors is assigned by its `Unmarshal`** (directly,
+or through the `Unmarshal` of the field / embedded vector), in the section order `unmarshalInto` follows —
+what `unmarshal_into_used_object` rests on: a field added to one of these structs that the reader does not
+reset re-opens this obligation -/
+theorem gen_unmarshal_assigns_every_field :
+    Generated.C20.trieAssigned =
+      ["totalKeys", "height", "labelVec", "hasChildVec", "loudsVec", "prefixVec", "suffixVec", "values"] ∧
+    (Generated.C20.trieFields.all (Generated.C20.trieAssigned.contains ·) &&
+     Generated.C20.labelVectorFields.all (Generated.C20.labelVectorAssigned.contains ·) &&
+     Generated.C20.valueVectorFields.all (Generated.C20.valueVectorAssigned.contains ·) &&
+     Generated.C20.pathVectorFields.all (Generated.C20.pathVectorAssigned.contains ·) &&
+     Generated.C20.bitVectorFields.all (Generated.C20.bitVectorAssigned.contains ·) &&
+     Generated.C20.rankVectorFields.all (Generated.C20.rankVectorAssigned.contains ·) &&
+     Generated.C20.selectVectorFields.all (Generated.C20.selectVectorAssigned.contains ·)) = true := by
+  constructor
+  · rfl
+  · decide
+
+/-- `Iterator.Next` / `Prev`: the louds-bit climb, `setAt`, then the leftmost resp. rightmost descent
+(= `LoudsIter.next` / `prev`, the moves of `louds_walk_refines_cursor`) -/
+theorem gen_cursor_moves :
+    Generated.C20.nextCalls = ["loudsVec.IsSet", "it.setAt", "it.moveToLeftMostKey"] ∧
+    Generated.C20.prevCalls = ["loudsVec.IsSet", "it.setAt", "it.moveToRightMostKey"] := ⟨rfl, rfl⟩
+
 /-- `indexKVMerger.Merge` starts from a fresh `model.NewTrieBucket()` on every call (what
 `mergerStep` / `merge_independent_of_previous_merges` rest on) -/
 theorem gen_merger_fresh_bucket : Generated.C20.mergerCalls.head? = some "model.NewTrieBucket" := rfl
